@@ -125,7 +125,7 @@ def steps_per_run(rec) -> dict[int, int]:
     return out
 
 
-def wait_rules(rec, spec: dict):
+def wait_rules(rec, spec: dict, provided: dict | None = None):
     """C17 safety. S1: a waiter starts only after a producer of each awaited name has
     completed. S2: never in the same step as a producer of that name. S3: between two
     starts of a waiter every awaited name is produced again."""
@@ -140,6 +140,9 @@ def wait_rules(rec, spec: dict):
         prods[gname] = p
         by_name[gname] = {ref.node_name(ns): ns for ns in prog["nodes"]}
     produced_count: dict[tuple, int] = {}  # (run, level, name) -> completed productions
+    provided = provided or {}
+    resumed_once: set[tuple] = set()
+    pending: dict[int, list[tuple]] = {}  # run -> productions that become visible at the next ready event
     seen_at_start: dict[tuple, dict] = {}  # (run, waiter fid) -> {name: count at last start}
     bad = []
     n = {"s1_checked": 0, "s2_checked": 0, "s3_checked": 0}
@@ -161,14 +164,31 @@ def wait_rules(rec, spec: dict):
                 c = produced_count.get((e[3], prog["name"], w), 0)
                 cur[w] = c
                 n["s1_checked"] += 1
-                if c == 0:
+                if c == 0 and w not in provided:
+                    # (a name supplied by the caller counts as produced by the caller)
                     bad.append(("C17:S1-before-production", f"{e[1]} started at log index {i} before any producer of '{w}' completed"))
                 if prev is not None:
                     n["s3_checked"] += 1
                     if c <= prev[w]:
                         bad.append(("C17:S3-not-reproduced", f"{e[1]} started again at log index {i} although '{w}' was not produced again since its previous start"))
             seen_at_start[(e[3], e[1])] = cur
+        elif k == "step":
+            # an interrupt whose answers were supplied completes through the resume path
+            # without its handler being called: its outputs (and signals) are produced by
+            # this step (only the first interrupt of a step runs, alone)
+            level = e[2]
+            if level in by_name:
+                for nm in e[3]:
+                    ns = by_name[level].get(nm)
+                    if ns is not None and ns["k"] == "int":
+                        outs = [ext for o, ext in ref.node_outputs(ns) if o in ns.get("outs", [])]
+                        if outs and all(x in provided for x in outs) and (e[1], nm) not in resumed_once:
+                            resumed_once.add((e[1], nm))
+                            pending.setdefault(e[1], []).extend((e[1], level, ext) for _, ext in ref.node_outputs(ns))
+                        break
         elif k == "ready":
+            for key in pending.pop(e[1], []):
+                produced_count[key] = produced_count.get(key, 0) + 1
             level = e[2]
             if level not in by_name:
                 continue
